@@ -62,7 +62,18 @@ def IsBridgeError (o : Outcome) : Prop :=
 /-! ## Totality -/
 
 /-- **Totality.** Whatever is wrapped (a function of any signature with any body, even a
-    non-function), whatever the arguments: no panic escapes `Run`. -/
+    non-function), whatever the arguments: no panic escapes `Run`.
+
+    What this rests on — and what it does not: in the model every panic raised after the `defer` statement
+    (reflect's, the body's) is turned into `(nil, error)` exactly when `shape.recovers` holds, so the proof
+    is two rewrites and would go through for any `runRaw`. The theorem is therefore the conjunction of
+    (1) Go's defer/recover semantics (trusted), (2) the regenerated three-valued source fact
+    `Gen.C19.recoverFact` — decided semantically by the extractor on every check: `Run`'s deferred function
+    itself calls `recover()` and assigns the named error result; `shape.recovers` is `recoverFact ≠ no`
+    (`shape_recovers`), so a tree in which the recover is removed, nested, shadowed or narrowed breaks THIS
+    proof, and a tree whose shape the extractor does not understand is reported as "assumed" and searched
+    harder — and (3) `shape_nil_panic_reported` for panics whose `recover()` returns nil. The model of
+    reflect's own panics contributes nothing to totality; it matters for the error theorems below. -/
 theorem bridge_total (oob : IntKind → Num → Int) (t : Target) (args : List Val) :
     ∀ r, run shape oob t args = r → r ≠ .escaped := by
   intro r h
@@ -380,6 +391,45 @@ theorem numeric_result_is_number (t : Ty) (v : Val) (ht : t.isNumeric = true) (h
 theorem iface_result_is_number (t : Ty) (v : Val) (ht : t.isNumeric = true) (hv : v.ty = some t)
     (hw : ∀ t' c, v ≠ .foreign t' c) : ∃ x, convertResultNumber .iface v = .f64 x := by
   cases t <;> simp [Ty.isNumeric] at ht <;> cases v <;> simp_all [Val.ty, convertResultNumber, Ty.isInterface, numericOf]
+
+/-- **Known finding `nested-result-numbers`: numbers nested in a returned slice / array / map are NOT
+    delivered as ECAL numbers.** The code converts a result by the Kind of the result itself; a Go slice,
+    array or map of Go values (`[]int`, `[2]uint8`, `map[string]int`, …) — declared with that type or as
+    `interface{}` — reaches the ECAL program as it is: not an ECAL container at all (`l[0]`: "Variable l is
+    not a container", `len(l)` fails, `for x in l` silently does nothing), its elements Go integers. -/
+theorem nested_results_are_passed_raw (static t kt vt : Ty) (xs kvs : Vals) :
+    convertResultNumber static (.seq t xs) = .seq t xs ∧
+    convertResultNumber static (.gomap kt vt kvs) = .gomap kt vt kvs := by
+  simp [convertResultNumber, numericOf_seq, numericOf_gomap]
+
+/-- `func() []int { return []int{1, 2} }` through `Run`: the ECAL program gets the raw Go slice. -/
+example : run shape (fun _ _ => 0)
+    (.fn ⟨[], false, [.slice (.int .int)]⟩ (fun _ => .ret [.seq (.int .int) (.cons (.int .int 1) (.cons (.int .int 2) .nil))])) []
+    = .done (.one (.seq (.int .int) (.cons (.int .int 1) (.cons (.int .int 2) .nil)))) none := by decide
+
+/-- About the CANDIDATE repair only (`demandedResult` = what `fixes/C19-nested-result-numbers.patch` would
+    do; the patch is NOT applied because turning every slice into an ECAL list breaks Go→Go round trips
+    through ECAL that work today, e.g. a raw `[]string` result handed back to a `[]string` parameter): a
+    slice or array of a numeric element type would be delivered as an ECAL list in which every element is
+    an ECAL number. This is what the correspondence run reports as `spec=` on the known-finding cases. -/
+theorem candidate_repair_delivers_nested_numbers (static t : Ty) (xs : Vals) (ht : t.isNumeric = true)
+    (hty : ∀ v ∈ xs.toList, v.ty = some t ∧ (∀ t' c, v ≠ .foreign t' c) ∧
+      (∀ t' ys, v ≠ .seq t' ys) ∧ (∀ a b ys, v ≠ .gomap a b ys)) :
+    ∃ ys, demandedResult static (.seq t xs) = .elist ys ∧ (Val.elist ys).ty = some Ty.list ∧
+      ys.toList.length = xs.toList.length ∧ ∀ y ∈ ys.toList, ∃ x, y = .f64 x := by
+  have hne : t ≠ Ty.iface := by intro h; subst h; simp [Ty.isNumeric] at ht
+  refine ⟨demandedSeq t xs, by simp [demandedResult, hne], rfl, by simp [demandedSeq_toList], ?_⟩
+  intro y hy
+  rw [demandedSeq_toList] at hy
+  obtain ⟨v, hv, rfl⟩ := List.mem_map.mp hy
+  obtain ⟨h1, h2, h3, h4⟩ := hty v hv
+  have : demandedResult t v = convertResultNumber t v := by
+    cases v <;> first | rfl | exact absurd rfl (h3 _ _) | exact absurd rfl (h4 _ _ _)
+  rw [this]
+  exact numeric_result_is_number t v ht h1 h2
+
+example : demandedResult .iface (.seq (.int .int) (.cons (.int .int 1) (.cons (.int .int 2) .nil)))
+    = .elist (.cons (.f64 (.fin 1 0)) (.cons (.f64 (.fin 2 0)) .nil)) := by decide
 
 /-- **Through `Run`, for every position of a multi-result.** When the call reaches a function without
     trailing error whose body returns `vals` (one per declared result), `Run` delivers
